@@ -337,6 +337,9 @@ Proof.
   rewrite Et in Ht. discriminate.
 Qed.
 
+Lemma iter_shift {A} (f : A -> A) k x : Nat.iter (S k) f x = Nat.iter k f (f x).
+Proof. induction k as [|k IH]; [reflexivity|]. cbn in *. rewrite IH. reflexivity. Qed.
+
 Section Guard.
 Variable pol : policy.
 Variable maxd : N.
@@ -439,18 +442,39 @@ Proof.
   rewrite sweep_members, sweep_grants in H. apply H. lia.
 Qed.
 
-(* delegation: the delegating parent holds at least the delegated level *)
-Theorem op_delegate_sound s now parent child sec lvl ttl s' :
-  op_delegate pol true maxd s now parent child sec lvl ttl = (s', R_OK) -> parent <> root -> 1 <= lvl ->
-  Conferred pol (members s) (live_grants s now) parent sec lvl.
+(* delegation: the delegating parent holds at least the delegated level on EVERY delegated secret; the checks
+   run in list order, each against the state (and live grants) it is evaluated in *)
+Lemma deleg_check_sound : forall secs s now parent lvl s1,
+  deleg_check pol true s now parent secs lvl = (s1, R_OK) -> parent <> root -> 1 <= lvl ->
+  forall x, In x secs -> exists s0, (s0 = s \/ exists k, s0 = Nat.iter k (fun y => sweep y now) s) /\
+    Conferred pol (members s0) (live_grants s0 now) parent x lvl.
 Proof.
-  unfold op_delegate. destruct (get_permission s now parent sec) as [s1 pl] eqn:Eg.
-  destruct pl as [l|]; [|intros E; injection E as _ E; discriminate].
-  destruct l as [|l']; [intros E; injection E as _ E; discriminate|].
-  destruct (N.leb_spec lvl (N.pos l')) as [Hle|Hle]; cbn [negb]; [|intros E; injection E as _ E; discriminate].
-  intros _ Hroot Hl.
-  apply (Conferred_mono _ _ _ _ _ (N.pos l')); [exact Hle|].
-  apply (get_permission_sound _ _ _ _ _ _ Eg Hroot). lia.
+  induction secs as [|y r IH]; intros s now parent lvl s1 H Hroot Hl x Hin; [destruct Hin|].
+  cbn [deleg_check] in H. destruct (get_permission s now parent y) as [s' pl] eqn:Eg.
+  destruct pl as [l|]; [|injection H as _ H; discriminate].
+  destruct l as [|l']; [injection H as _ H; discriminate|].
+  destruct (N.leb_spec lvl (N.pos l')) as [Hle|Hle]; [|injection H as _ H; discriminate].
+  destruct Hin as [<-|Hin].
+  - exists s. split; [left; reflexivity|].
+    apply (Conferred_mono _ _ _ _ _ (N.pos l')); [exact Hle|].
+    apply (get_permission_sound _ _ _ _ _ _ Eg Hroot). lia.
+  - assert (Es' : s' = sweep s now).
+    { unfold Model.get_permission, pre_check in Eg. destruct (N.eqb_spec parent root); [contradiction|]. injection Eg as <- _. reflexivity. }
+    destruct (IH s' now parent lvl s1 H Hroot Hl x Hin) as (s0 & Hs0 & Hc).
+    exists s0. split; [|exact Hc]. right. destruct Hs0 as [->|(k & ->)].
+    + exists 1%nat. cbn. exact Es'.
+    + exists (S k). rewrite Es'. symmetry. apply iter_shift.
+Qed.
+
+Theorem op_delegate_sound s now parent child secs lvl ttl s' :
+  op_delegate pol true maxd s now parent child secs lvl ttl = (s', R_OK) -> parent <> root -> 1 <= lvl ->
+  forall x, In x secs -> exists s0, (s0 = s \/ exists k, s0 = Nat.iter k (fun y => sweep y now) s) /\
+    Conferred pol (members s0) (live_grants s0 now) parent x lvl.
+Proof.
+  unfold op_delegate. destruct (deleg_check pol true s now parent secs lvl) as [s1 r] eqn:Ed.
+  destruct (N.eqb_spec r R_OK) as [->|Hr]; cbn [negb].
+  - intros _. eapply deleg_check_sound; exact Ed.
+  - intros E. injection E as _ E. congruence.
 Qed.
 End Guard.
 
@@ -529,6 +553,7 @@ Section Taint.
 Variable pol : policy.
 Variable sw : bool.
 Variable maxd : N.
+Variable sg : bool.
 
 Lemma pre_check_wlog s now : wlog (pre_check sw s now) = wlog s.
 Proof. unfold pre_check. destruct sw; reflexivity. Qed.
@@ -549,9 +574,9 @@ Lemma w_audit_ok req sec : forallb write_ok (w_audit req sec) = true. Proof. ref
 Lemma w_edge_ok e sec : forallb write_ok (w_edge e sec) = true. Proof. reflexivity. Qed.
 Lemma w_err_ok req sec : forallb write_ok (w_err req sec) = true. Proof. reflexivity. Qed.
 
-Lemma step_ext_ok s now o : ext_ok s (fst (step pol sw maxd s now o)).
+Lemma step_ext_ok s now o : ext_ok s (fst (step pol sw maxd sg s now o)).
 Proof.
-  destruct o as [r x v|r x|r|r x|r x v|r x|r e x l t|r e x|pa c x l t|r x|a b|a b|d]; cbn [step].
+  destruct o as [r x v|r x|r|r x|r x v|r x|r e x l t|r e x|pa c xs l t|d0 r x|r x|a b|a b|d]; cbn [step].
   - (* set *)
     unfold op_set. destruct (has_secret s x).
     + pose proof (check_access_wlog s now r x 2) as Hw.
@@ -609,19 +634,29 @@ Proof.
     destruct (N.eqb c R_OK); cbn [fst]; apply ext_ok_log;
       try apply w_audit_ok; try apply w_err_ok; eapply ext_ok_same; try apply ext_ok_refl; cbn [wlog]; congruence.
   - (* delegate *)
-    unfold op_delegate. pose proof (get_permission_wlog s now pa x) as Hw.
-    destruct (get_permission pol sw s now pa x) as [s1 pl]. cbn [fst] in Hw.
-    destruct pl as [lv|]; [|cbn [fst]; eapply ext_ok_same; [apply ext_ok_refl|exact Hw]].
-    destruct lv as [|lv'].
-    { cbn [fst]. apply ext_ok_log; [|apply w_err_ok]. eapply ext_ok_same; [apply ext_ok_refl|exact Hw]. }
-    destruct (negb (N.leb l (N.pos lv'))).
-    { cbn [fst]. apply ext_ok_log; [|apply w_err_ok]. eapply ext_ok_same; [apply ext_ok_refl|exact Hw]. }
-    destruct (N.eqb pa c); [cbn [fst]; eapply ext_ok_same; [apply ext_ok_refl|exact Hw]|].
-    destruct (is_ancestor _ _ _ _); [cbn [fst]; eapply ext_ok_same; [apply ext_ok_refl|exact Hw]|].
-    destruct (N.ltb maxd _); [cbn [fst]; eapply ext_ok_same; [apply ext_ok_refl|exact Hw]|].
+    unfold op_delegate.
+    assert (Hd : forall xs s0, ext_ok s0 (fst (deleg_check pol sw s0 now pa xs l))).
+    { induction xs as [|y ys IH]; intros s0; cbn [deleg_check fst]; [apply ext_ok_refl|].
+      pose proof (get_permission_wlog s0 now pa y) as Hw.
+      destruct (get_permission pol sw s0 now pa y) as [s1 pl]. cbn [fst] in Hw.
+      destruct pl as [lv|]; [|cbn [fst]; eapply ext_ok_same; [apply ext_ok_refl|exact Hw]].
+      destruct lv as [|lv'].
+      { cbn [fst]. apply ext_ok_log; [|apply w_err_ok]. eapply ext_ok_same; [apply ext_ok_refl|exact Hw]. }
+      destruct (N.leb l (N.pos lv')).
+      - eapply ext_ok_trans; [eapply ext_ok_same; [apply ext_ok_refl|exact Hw]|apply IH].
+      - cbn [fst]. apply ext_ok_log; [|apply w_err_ok]. eapply ext_ok_same; [apply ext_ok_refl|exact Hw]. }
+    specialize (Hd xs s). destruct (deleg_check pol sw s now pa xs l) as [s1 rc]. cbn [fst] in Hd.
+    destruct (negb (N.eqb rc R_OK)); [exact Hd|].
+    destruct (N.eqb pa c); [exact Hd|].
+    destruct (is_ancestor _ _ _ _); [exact Hd|].
+    destruct (N.ltb maxd _); [exact Hd|].
     cbn [fst]. apply ext_ok_log.
-    + eapply ext_ok_same; [apply ext_ok_refl|]. cbn [wlog]. exact Hw.
-    + destruct t; reflexivity.
+    + eapply ext_ok_trans; [exact Hd|]. eapply ext_ok_same; [apply ext_ok_refl|reflexivity].
+    + clear. induction xs as [|y ys IH]; [reflexivity|]. cbn [flat_map]. rewrite forallb_app, IH, Bool.andb_true_r.
+      destruct t; reflexivity.
+  - (* sealed window *)
+    unfold op_sealed. destruct (sg || negb sw || N.eqb r root); cbn [fst]; [apply ext_ok_refl|].
+    eapply ext_ok_same; [apply ext_ok_refl|reflexivity].
   - (* get_permission *)
     pose proof (get_permission_wlog s now r x) as Hw.
     destruct (get_permission pol sw s now r x) as [s1 pl]. cbn [fst] in *.
@@ -631,20 +666,20 @@ Proof.
   - apply ext_ok_refl.
 Qed.
 
-Lemma run_ext_ok : forall ops s now, ext_ok s (fst (run pol sw maxd s now ops)).
+Lemma run_ext_ok : forall ops s now, ext_ok s (fst (run pol sw maxd sg s now ops)).
 Proof.
   induction ops as [|o ops IH]; intros s now; cbn [run]; [apply ext_ok_refl|].
   pose proof (step_ext_ok s now o) as H1.
-  destruct (step pol sw maxd s now o) as [s1 a]. cbn [fst] in H1.
+  destruct (step pol sw maxd sg s now o) as [s1 a]. cbn [fst] in H1.
   specialize (IH s1 (advance now o)).
-  destruct (run pol sw maxd s1 (advance now o) ops) as [s2 l]. cbn [fst] in *.
+  destruct (run pol sw maxd sg s1 (advance now o) ops) as [s2 l]. cbn [fst] in *.
   eapply ext_ok_trans; eassumption.
 Qed.
 
 (* after ANY history from the empty vault: no secret value is readable anywhere (store, audit, errors), and a
    secret name is readable only in the three known places or in an error string *)
 Theorem taint_invariant ops loc t x :
-  In (loc, t) (wlog (fst (run pol sw maxd init 0 ops))) -> In x (exposed t) ->
+  In (loc, t) (wlog (fst (run pol sw maxd sg init 0 ops))) -> In x (exposed t) ->
   is_value x = false /\ (is_name x = true -> name_ok_loc loc = true).
 Proof.
   intros Hin Hx. destruct (run_ext_ok ops init 0) as (X & E & H). rewrite E in Hin. cbn in Hin.
@@ -657,7 +692,7 @@ End Taint.
 
 (* the names ARE readable at rest (F-C14-name): creating a secret writes its clear name into the access-control node *)
 Theorem names_at_rest_refuted :
-  exists ops loc t s, In (loc, t) (wlog (fst (run default_policy true 3 init 0 ops))) /\
+  exists ops loc t s, In (loc, t) (wlog (fst (run default_policy true 3 true init 0 ops))) /\
     In (SName s) (exposed t) /\ loc = 2.
 Proof.
   exists [OSet 0 7 1], 2, (Cat (Obf (name 7)) (name 7)), 7. vm_compute. repeat split; auto 10.
@@ -666,9 +701,9 @@ Qed.
 (* without the sweep in the access check an expired grant still authorises (F-C14-ttl): refutation of the
    guarded-call theorem for the variant of the model with sweep_on_check = false *)
 Theorem lazy_expiry_refuted :
-  exists ops, let '(s, answers) := run default_policy false 3 init 0 ops in
+  exists ops, let '(s, answers) := run default_policy false 3 true init 0 ops in
     nth 3 answers (ACode 9) = ACode R_OK /\
-    ~ Conferred default_policy (members s) (live_grants (fst (run default_policy false 3 init 0 (firstn 3 ops))) 4) 1 5 2.
+    ~ Conferred default_policy (members s) (live_grants (fst (run default_policy false 3 true init 0 (firstn 3 ops))) 4) 1 5 2.
 Proof.
   exists [OSet 0 5 1; OGrant 0 1 5 2 (Some 1); OTick 1; ORotate 1 5 2].
   vm_compute. split; [reflexivity|].
